@@ -242,15 +242,26 @@ def serveChain {Cert Key Ident : Type} [DecidableEq Key] (f : Flavor) (routes : 
 /-! ### The certificates of the test networks (suite `c20_live`) -/
 
 /-- `onFile i` = test certificate `i` byte for byte; `reissued i` = a fresh self-signed certificate for
-the key of test certificate `i` with the same subject (other serial number: other bytes). -/
+the key of test certificate `i` with the same subject (other serial number: other bytes); `leaf i` =
+a certificate for a FRESH key (another subject), issued with the key and subject of test certificate
+`i` (what the holder of key `i` can mint at will). -/
 inductive TestCert where
   | onFile (i : Nat)
   | reissued (i : Nat)
+  | leaf (i : Nat)
   deriving DecidableEq, Repr
 
+/-- the key a certificate certifies (`100 + i`: the fresh key of `leaf i`) -/
 def TestCert.key : TestCert → Nat
   | .onFile i => i
   | .reissued i => i
+  | .leaf i => 100 + i
+
+/-- the key (and subject) that signed it -/
+def TestCert.signer : TestCert → Nat
+  | .onFile i => i
+  | .reissued i => i
+  | .leaf i => i
 
 /-- `peers` of the suite's servers: MPC = helpers A, B with certificates 0, 1 and helper C without;
 shard = shards 0, 1 with certificates 0, 1. -/
@@ -258,10 +269,11 @@ def testPeers : Flavor → List (Nat × Option TestCert)
   | .helper => [(0, some (.onFile 0)), (1, some (.onFile 1)), (2, none)]
   | .shard => [(0, some (.onFile 0)), (1, some (.onFile 1))]
 
-/-- webpki: a path exists iff the certificate was issued by (here: self-signed with) the key of a
-pinned certificate of the same subject — true for the pinned certificate itself and for a
-re-issued one. -/
+/-- webpki: a path exists iff the certificate was signed by the key of a pinned certificate with that
+certificate's subject as issuer (a trust anchor is subject + key; no CA constraint is checked on
+it) — true for the pinned certificate itself, for one re-issued for its key, and for a leaf minted
+with its key. -/
 def testAnchored (f : Flavor) (c : TestCert) : Bool :=
-  (testPeers f).any (fun p => p.2 == some (.onFile c.key))
+  (testPeers f).any (fun p => p.2 == some (.onFile c.signer))
 
 end IpaVerif.Auth
